@@ -292,6 +292,11 @@ class Interp:
                 if name in ("chokan--roman-table", "chokan--katakana-table",
                             "chokan--target-character-regexp"):
                     self.globals.v[name] = self.eval(parts[2], self.globals)
+                elif len(parts) > 2:
+                    # any other global: evaluated on first use (a function may start to depend on a new constant)
+                    if not hasattr(self, "deferred"):
+                        self.deferred = {}
+                    self.deferred[name] = parts[2]
             elif head == "defun":
                 parts = to_py(f)
                 name = parts[1].name
@@ -315,6 +320,11 @@ class Interp:
                 return x
             e = env.find(x.name)
             if e is None:
+                d = getattr(self, "deferred", {})
+                if x.name in d:
+                    form = d.pop(x.name)
+                    self.globals.v[x.name] = self.eval(form, self.globals)
+                    return self.globals.v[x.name]
                 raise LispError("void variable %s" % x.name)
             return e.v[x.name]
         if not isinstance(x, Cons):
@@ -567,6 +577,42 @@ class Interp:
         if not isinstance(c, Cons):
             raise LispError("car of non-list")
         return c.car
+
+    def fn_last(self, c, n=1):
+        items = []
+        while isinstance(c, Cons):
+            items.append(c)
+            c = c.cdr
+        if not items:
+            return NIL
+        return items[max(0, len(items) - n)] if n > 0 else NIL
+
+    def fn_nth(self, n, c):
+        while n > 0 and isinstance(c, Cons):
+            c = c.cdr
+            n -= 1
+        return c.car if isinstance(c, Cons) else NIL
+
+    def fn_nthcdr(self, n, c):
+        while n > 0 and isinstance(c, Cons):
+            c = c.cdr
+            n -= 1
+        return c
+
+    def fn_caar(self, c):
+        return self.fn_car(self.fn_car(c))
+
+    def fn_cadr(self, c):
+        return self.fn_car(self.fn_cdr(c))
+
+    def fn_cdar(self, c):
+        return self.fn_cdr(self.fn_car(c))
+
+    def fn_cddr(self, c):
+        return self.fn_cdr(self.fn_cdr(c))
+
+    def fn_null(self, a):
+        return T if a is NIL else NIL
 
     def fn_cdr(self, c):
         if c is NIL:
